@@ -214,6 +214,7 @@ def check(P, rep):
         rep.check(not state_effects(g), 'C02.R4', 'is_message_executed:pure', 'query has no effect', entry_id(g))
     else:
         rep.floor('gateway entry is_message_executed', 0, 1)
+    storage_classes(P, rep, 'C02.R5', CN, {'MessageApproval': 'persistent'})
     # R5 type table
     k = c.adts.get('storage_types::MessageApprovalKey')
     okk = k is not None and [(f['name'], f['ty']) for f in k['variants'][0]['fields']] == \
